@@ -192,6 +192,10 @@ func (c Config) proxyIdx() int { return c.NumServers + c.NumClients }
 // ProxyOK of the spec (holds only with PerfectFD):
 //
 //	(pc[ProxyID] = "sendMsgToClient" /\ proxyResp.body = FAIL) => \A server \in SERVER_SET : pc[server] \in {"failLabel", "Done"}
+//
+// Key proxy/fail-sentinel-equals-server-id: the FAIL in proxyResp.body is not the proxy's own
+// placeholder but the *answer of a live server* whose identifier equals FAIL (= 100; a server
+// answers body |-> self), i.e. an instance with NUM_SERVERS >= 100 (known finding).
 func (c Config) ProxyOK(s *ss.State) (string, string) {
 	p := c.proxyIdx()
 	if s.PC(p) != "AProxy.sendMsgToClient" {
@@ -203,10 +207,20 @@ func (c Config) ProxyOK(s *ss.State) (string, string) {
 	}
 	for sv := 1; sv <= c.NumServers; sv++ {
 		if pc := s.PC(sv - 1); pc != "AServer.failLabel" && pc != "AServer.Done" {
+			if c.fromServer(pr) {
+				return "proxy/fail-sentinel-equals-server-id", fmt.Sprintf("the proxy is about to answer request %s with body %d = FAIL, which is the healthy answer %s of server %s; server %d is alive at %s",
+					ss.Canon(s.Locals[p]["AProxy.msg"]), Fail, ss.Canon(pr), ss.Canon(pr.ApplyFunction(str("from"))), sv, pc)
+			}
 			return "proxy/ProxyOK", fmt.Sprintf("the proxy is about to report FAIL for request %s while server %d is alive at %s", ss.Canon(s.Locals[p]["AProxy.msg"]), sv, pc)
 		}
 	}
 	return "", ""
+}
+
+// fromServer: the response record was produced by a server (from \in SERVER_SET), not by the proxy.
+func (c Config) fromServer(resp tla.Value) bool {
+	f := resp.ApplyFunction(str("from"))
+	return f.IsNumber() && f.AsNumber() >= 1 && int(f.AsNumber()) <= c.NumServers
 }
 
 // FailOnlyWhenAllFailed is the client-side image of the property statement: a response with body
@@ -221,8 +235,31 @@ func (c Config) FailOnlyWhenAllFailed(s *ss.State, p int, a *ss.Attempt) (string
 	}
 	for sv := 1; sv <= c.NumServers; sv++ {
 		if pc := s.PC(sv - 1); pc != "AServer.failLabel" && pc != "AServer.Done" {
+			// the proxy still holds the server answer it forwarded for this very request?
+			pr, pm := s.Locals[c.proxyIdx()]["AProxy.proxyResp"], s.Locals[c.proxyIdx()]["AProxy.msg"]
+			if pr.IsFunction() && pm.IsFunction() && c.fromServer(pr) && pr.ApplyFunction(str("body")).Equal(num(Fail)) &&
+				pm.ApplyFunction(str("from")).Equal(num(p+1)) && pr.ApplyFunction(str("id")).Equal(r.ApplyFunction(str("id"))) {
+				return "proxy/fail-sentinel-equals-server-id", fmt.Sprintf("client %d received body %d = FAIL, which is the healthy answer of server %s; server %d is alive at %s", p+1, Fail, ss.Canon(pr.ApplyFunction(str("from"))), sv, pc)
+			}
 			return "proxy/fail-reported-with-live-server", fmt.Sprintf("client %d received FAIL while server %d is alive at %s", p+1, sv, pc)
 		}
 	}
 	return "", ""
+}
+
+// SeedCrashAllBut is a seeding script (a real execution from the initial state, EXPLORE_FAIL =
+// TRUE): every server except `alive` takes the failing branch of mayFail in serverLoop
+// (netEnabled[self, PROXY_REQ_MSG_TYP] := FALSE) and then failLabel (fd[self] := TRUE).
+func (c Config) SeedCrashAllBut(alive int) []ss.SeedStep {
+	var script []ss.SeedStep
+	for sv := 1; sv <= c.NumServers; sv++ {
+		if sv == alive {
+			continue
+		}
+		idx := sv - 1
+		script = append(script,
+			ss.SeedStep{Proc: fmt.Sprintf("Server(%d)", sv), Accept: func(a *ss.Attempt) bool { return a.Next.PC(idx) == "AServer.failLabel" }},
+			ss.SeedStep{Proc: fmt.Sprintf("Server(%d)", sv)})
+	}
+	return script
 }
